@@ -147,3 +147,40 @@ Definition oracle (c : scase) : bool :=
 
 (** One pass for the common case (everything agrees and the property holds). *)
 Definition both (c : scase) : bool := agree c && oracle c.
+
+(** ** Live end-to-end cases: a real server with connection state recovery and a protocol-level
+    client that reconnects with pid + offset.  The history is what the server was asked to emit
+    (offset ids = the tags 1.. of the events), the session persisted when the connection dropped,
+    and the clean-up passes; the observation is what the reconnecting client and the server's
+    new socket report.  Frames: tag of a replayed event, 0 for the CONNECT packet. *)
+Definition lcase :=
+  (Z * list (Z * op) * (Z * N * N) * (bool * N * N * list N * list N * bool))%type.
+
+Definition frame_code (f : frame) : N :=
+  match f with FReplay p => p_id p | FConnect _ _ => 0%N end.
+
+(** the fresh ids are whatever the implementation generated (oracle inputs) *)
+Definition agree_live (c : lcase) : bool :=
+  let '(W, h, (t, pid, off), (rec, sid, pid', rooms, frames, wf)) := c in
+  let k := snd (connect W t pid off sid pid' (final W h)) in
+  Bool.eqb (k_recovered k) rec && N.eqb (k_sid k) sid && N.eqb (k_pid k) pid'
+  && same_set (k_rooms k) rooms && nlist_eqb (map frame_code (k_sent k)) frames.
+
+Definition oracle_live (c : lcase) : bool :=
+  let '(W, h, (t, pid, off), (rec, sid, pid', rooms, frames, wf)) := c in
+  let replayed := filter (fun x => negb (N.eqb x 0)) frames in
+  let fresh old := negb (N.eqb sid old) && negb (N.eqb pid' pid)
+                   && is_nil replayed && same_set rooms [sid] in
+  wf && nodup_n (map p_id (emitted h))
+  && match last_persist pid h None, split_at_id off (emitted h) with
+     | Some (s, td), Some (p, post) =>
+         if rec then
+           negb (sess_expired W t td)
+           && N.eqb sid (s_sid s) && N.eqb pid' pid && same_set rooms (s_sid s :: s_rooms s)
+           && nlist_eqb replayed (map p_id (filter (selected s) post))
+         else (sess_expired W t td || cleaned_after_expiry W h p) && fresh (s_sid s)
+     | Some (s, _), None => negb rec && fresh (s_sid s)
+     | None, _ => negb rec && fresh 0%N
+     end.
+
+Definition both_live (c : lcase) : bool := agree_live c && oracle_live c.
